@@ -582,7 +582,8 @@ impl RHost {
             match l {
                 TLog::Outcome { n, completed } => out.outcomes.push((n, completed)),
                 TLog::LegacyOutcome { n, what, id } => {
-                    if shell.timer_ids.get(&n) != Some(&id) {
+                    // (a timer cleared before it was requested never showed its id to the shell)
+                    if shell.timer_ids.get(&n).is_some_and(|seen| *seen != id) {
                         out.errors.push(format!("legacy timer {n} reported with id {id}, its request carried {:?}", shell.timer_ids.get(&n)));
                     }
                     out.outcomes.push((n, what != 3));
